@@ -96,6 +96,7 @@ func fieldCoverage(pkgs []*packages.Package, tn *types.TypeName) fieldUse {
 }
 
 func runC41(w *World, r *Report) {
+	c41PipeDeadlines(w, r)
 	r.Rule("R-C41-1", "every field of services.ChildServiceRequest has an explicit write (parent side) and an explicit read (child side) in package services", 20)
 	r.Rule("R-C41-2", "every field of services.ChildServiceResponse has an explicit write (child side) and an explicit read (parent side) in package services", 4)
 
@@ -302,4 +303,107 @@ func runC41(w *World, r *Report) {
 			}
 		}
 	}
+}
+
+// c41PipeDeadlines: R-C41-5. The in-process path puts no limit on how long a
+// service may run (other than the run timeout, which the child transport
+// enforces by killing the child). A read deadline armed on the parent's side of
+// the socket and still in force when the parent waits for the child's response
+// cuts a slow service off: the pipe transport answers 500 where the in-process
+// run and the file transport answer with the service's own response.
+func c41PipeDeadlines(w *World, r *Report) {
+	r.Rule("R-C41-5", "no leftover deadline on the parent's socket: in package services every Set(Read)Deadline armed from time.Now() on a connection is cleared (a Set(Read)Deadline not computed from time.Now()) on every path before the next Decode of the child's response", 0)
+
+	sp := w.pkg("internal/server/services")
+	if sp == nil {
+		return
+	}
+
+	n := 0
+
+	for _, fn := range w.srcFuncs(sp) {
+		// only the side that accepts the connection (the parent)
+		accepts := false
+
+		allInstrs(fn, func(in ssa.Instruction) {
+			if c, ok := in.(*ssa.Call); ok && c.Common().IsInvoke() && c.Common().Method.Name() == "Accept" {
+				accepts = true
+			}
+		})
+
+		if !accepts {
+			continue
+		}
+
+		isDeadline := func(in ssa.Instruction) (armed bool, ok bool) {
+			c, isCall := in.(*ssa.Call)
+			if !isCall || !c.Common().IsInvoke() {
+				return false, false
+			}
+
+			name := c.Common().Method.Name()
+			if name != "SetReadDeadline" && name != "SetDeadline" {
+				return false, false
+			}
+
+			fromNow := derivesFrom(c.Call.Args[0], func(s ssa.Value) bool {
+				cc, isC := s.(*ssa.Call)
+
+				return isC && callID(cc.Common()) == "time.Now"
+			}, func(string) bool { return true })
+
+			return fromNow, true
+		}
+
+		allInstrs(fn, func(in ssa.Instruction) {
+			armed, ok := isDeadline(in)
+			if !ok || !armed {
+				return
+			}
+
+			n++
+
+			key := fnKey(fn) + "|deadline cleared before the response is read"
+			if n > 1 {
+				key += " #" + sprintInt(n)
+			}
+
+			cleared := func(i ssa.Instruction) bool {
+				a, ok := isDeadline(i)
+
+				return ok && !a
+			}
+
+			// the request goes out to the child (an Encode / Write on the way) and the
+			// response is then awaited (Decode) with the deadline still armed
+			reads := 0
+
+			sent := pathAvoiding(in, nil, cleared, func(i ssa.Instruction) bool {
+				c, ok := i.(*ssa.Call)
+				if !ok {
+					return false
+				}
+
+				return strings.HasSuffix(callID(c.Common()), "json.Encoder.Encode") || (c.Common().IsInvoke() && c.Common().Method.Name() == "Write")
+			})
+
+			if sent != nil {
+				if pathAvoiding(sent, nil, cleared, func(i ssa.Instruction) bool {
+					c, ok := i.(*ssa.Call)
+
+					return ok && strings.HasSuffix(callID(c.Common()), "json.Decoder.Decode")
+				}) != nil {
+					reads = 2
+				}
+			}
+
+			if reads > 1 {
+				r.Violate("R-C41-5", key, w.pos(in.Pos()), "the read deadline armed here for the child's handshake is still in force when the parent waits for the child's response: a service that runs longer is answered with 500 (i/o timeout) over the socket transport, while the in-process run and the file transport return the service's own status, headers and body")
+			} else {
+				r.Discharge("R-C41-5", key, w.pos(in.Pos()), "cleared before the response is awaited")
+			}
+		})
+	}
+
+	r.Unit("armed_deadlines_on_parent_socket", n)
 }
